@@ -24,6 +24,10 @@ CHECKS = {
    "SoyCheck.tla states the data-reference rules declaratively with lexical block scoping; generated valid bundles and single-rule mutants injected at every applicable site (13 mutation kinds) are compiled by the real code and TLC evaluates SoyCheck.Verdict on each bundle (C07Trace); accepted bundles are rendered with all declared params supplied under the lookup hook (no lookup of a name nothing declares), and the reference interpreter checks the same clause as the invariant ConsequentOK (C07Exec)",
    "accept/reject only (never the message); shapes where the rules' wording is not decisive (a loop variable shadowing a param/let) are Unspec; runtime clause counts only names that no template declares",
    "declarative TLA+ rules; TLC verdict validation of recorded compilations of generated bundles and site-enumerated mutants; lookup hook", "§5 C07"),
+ "C06": ("model_checking",
+   "SoyRegistry.tla models registry construction, template lookup and the error-recovery path (TLC: RecoveryTotal holds for the reference design and is broken by the two named deviations that the pinned code had); SoyExprCases' Total invariant shows the expression oracle is total on the ill-typed operator/function grids, which are replayed - together with every directive x arity x value class, every command x value class, malformed globals files, range steps, duplicate template names and failures at call depth 1..4, and generated bundles with arbitrary JSON data - through Renderer.Execute / EvalExpr / ParseGlobals in worker subprocesses with a deadline and an address-space cap",
+   "only the return obligation is judged (result or error, no panic, no hang); hangs must reproduce alone in a fresh worker; unbounded-but-finite work (huge ranges) is excluded",
+   "TLA+ model of the recovery path + TLC-enumerated ill-typed grids replayed on the real entry points in isolated workers", "§5 C06"),
 }
 
 NOT_YET = {
